@@ -1672,7 +1672,25 @@ def s_wrap(s, n):
 
 SYMTYPES += [SymBool, SymInt, SymReal, SymStr]
 
-PATCH = dict(int=s_int, float=s_float, bin=s_bin, isinstance=s_isinstance, min=s_min, max=s_max, abs=s_abs,
+def s_round(x, n=None):
+    """round(): symbolic reals are rounded half-up at the n-th decimal (ties are a measure-zero set of inputs; Python
+    rounds the binary64 value half-to-even, which differs from this only on such ties)"""
+    if isinstance(x, SymReal):
+        k = 10 ** (n or 0)
+        t = x.t * k + rval(Fraction(1, 2))
+        _note_floor(t)
+        it = z3.ToInt(t)
+        if n is None:
+            return SymInt(it=it, lo=-(1 << 62), hi=1 << 62)
+        return SymReal(z3.ToReal(it) / k)
+    if isinstance(x, SymInt):
+        if n is None or n >= 0:
+            return x
+        raise Unsupported("round(SymInt, negative digits)")
+    return builtins.round(x) if n is None else builtins.round(x, n)
+
+
+PATCH = dict(int=s_int, round=s_round, float=s_float, bin=s_bin, isinstance=s_isinstance, min=s_min, max=s_max, abs=s_abs,
              set=s_set, str=s_str, chr=s_chr, format=s_format)
 
 
